@@ -46,6 +46,10 @@ static uint64_t free_tick(Rng &r, const Song &s, int t, uint64_t lo, uint64_t hi
     return hi + 1;
 }
 
+struct LoopUD { Capture *cap; int which; long wrong; };
+static void c09_on_start(void *ud) { LoopUD *u = (LoopUD *)ud; if(u->which != 1) u->wrong++; Capture::on_loop_start(u->cap); }
+static void c09_on_end(void *ud) { LoopUD *u = (LoopUD *)ud; if(u->which != 2) u->wrong++; Capture::on_loop_end(u->cap); }
+
 static void run_case(Case &c)
 {
     Rng &r = c.rng;
@@ -102,12 +106,13 @@ static void run_case(Case &c)
     API("opn2_switchEmulator", rc = opn2_switchEmulator(d, OPNMIDI_EMU_GENS));
     { ExactBuf bk(default_bank()); API("opn2_openBankData", rc = opn2_openBankData(d, bk.p, (long)bk.n)); }
     Capture cap; cap.attach(d);
+    LoopUD ud_start = {&cap, 1, 0}, ud_end = {&cap, 2, 0};     // each callback has its own user data object
     API("opn2_setLoopEnabled", opn2_setLoopEnabled(d, loop_en ? 1 : 0));
     API("opn2_setLoopCount", opn2_setLoopCount(d, count_api));
-    if(hook_when != 1) { API("opn2_setLoopStartHook", opn2_setLoopStartHook(d, &Capture::on_loop_start, &cap)); API("opn2_setLoopEndHook", opn2_setLoopEndHook(d, &Capture::on_loop_end, &cap)); }
+    if(hook_when != 1) { API("opn2_setLoopStartHook", opn2_setLoopStartHook(d, &c09_on_start, &ud_start)); API("opn2_setLoopEndHook", opn2_setLoopEndHook(d, &c09_on_end, &ud_end)); }
     { ExactBuf in(file); API("opn2_openData", rc = opn2_openData(d, in.p, (unsigned long)in.n)); }
     if(rc != 0) { c.violation("oracle:C09:wellformed-file-rejected", vfmt("generated SMF rejected: %s; %s", opn2_errorInfo(d), ctx.c_str())); opn2_close(d); return; }
-    if(hook_when == 1) { API("opn2_setLoopStartHook", opn2_setLoopStartHook(d, &Capture::on_loop_start, &cap)); API("opn2_setLoopEndHook", opn2_setLoopEndHook(d, &Capture::on_loop_end, &cap)); }
+    if(hook_when == 1) { API("opn2_setLoopStartHook", opn2_setLoopStartHook(d, &c09_on_start, &ud_start)); API("opn2_setLoopEndHook", opn2_setLoopEndHook(d, &c09_on_end, &ud_end)); }
     if(hook_when == 2) { API("opn2_reset", opn2_reset(d)); }
     if(hook_when == 3)
     {
@@ -120,8 +125,18 @@ static void run_case(Case &c)
     // optional pre-history on the same instance: play the song (to its end, or part of it incl. jumps), then rewind or seek to 0;
     // the measured playback below must then behave like the first one (passes left, callbacks, loop start)
     {
-        int prehist = (int)r.below(4);
-        if(prehist)
+        int prehist = (int)r.below(5);
+        if(prehist == 4)
+        {   // a seek into the tail of the song (behind the last event, inside the reported length), then rewind
+            double len0 = 0; API("opn2_totalTimeLength", len0 = opn2_totalTimeLength(d));
+            double tgt = len0 - 0.05 - r.unit() * 0.9; if(tgt < 0) tgt = 0;
+            API("opn2_positionSeek", opn2_positionSeek(d, tgt));
+            API("opn2_positionRewind", opn2_positionRewind(d));
+            ctx += vfmt("; pre-history: seek to %.3f of %.3f s (tail) then rewind", tgt, len0);
+            count("prehistory_tail_seek_then_rewind");
+            cap.clear();
+        }
+        else if(prehist)
         {
             double len0 = 0; API("opn2_totalTimeLength", len0 = opn2_totalTimeLength(d));
             bool whole = (prehist == 1 && passes >= 0);
@@ -258,6 +273,8 @@ static void run_case(Case &c)
         if(cap.loop_end_cb != exp_end) c.violation(std::string("oracle:C09:loop-end-callback-count:") + (lp.E < song_ticks ? "marked-end" : "end-at-song-end") + ":hooks-" + (hook_when == 0 ? "before-load" : hook_when == 1 ? "after-load" : hook_when == 2 ? "before-load+reset" : "before-load+switch+reload"),
                                                  vfmt("loop-end callback fired %ld time(s), expected %ld (one per arrival at the loop end or song end); %s", cap.loop_end_cb, exp_end, ctx.c_str()));
     }
+    if(ud_start.wrong || ud_end.wrong)
+        c.violation("oracle:C09:loop-callback-user-data", vfmt("a loop callback was called with the other callback's user data (%ld time(s) the start data at the end callback, %ld the end data at the start callback); %s", ud_start.wrong, ud_end.wrong, ctx.c_str()));
     count("events_delivered", (long long)cap.ev.size());
     count("jumps_observed", jumps_seen);
     count("loop_callbacks_observed", cap.loop_start_cb + cap.loop_end_cb);
